@@ -1,9 +1,14 @@
-(* C04/Props.v : property theorems of C04 (all parameter values; one-qubit density matrices
-   arbitrary complex).  The n-qubit placement is tied by the exact correspondence run
-   (harness/c04.py) against the executable index-level closed forms of C04/ChannelSpec.v. *)
+(* C04/Props.v : property theorems of C04.
+   Part 1 (all parameter values; one-qubit density matrices arbitrary complex): the documented Kraus
+   lists are trace preserving and equal the documented closed forms.
+   Part 2 (C04/LiftTP.v; every register size n, every duplicate-free in-range target list): the map
+   apply_kraus of C04/ChannelSpec.v -- the model the harness compares exactly with the real backend --
+   is trace preserving as soon as the small operator sum is, completely positive (Gram form) and
+   Hermiticity preserving.  The exact correspondence run (harness/c04.py) ties apply_kraus and the
+   index-level closed forms to the code. *)
 From Coq Require Import Reals List.
 From Coquelicot Require Import Complex.
-From QV Require Import C04.ChannelSpec.
+From QV Require Import Base.Mat Base.Zi C01.Model C01.ProofsMat C04.ChannelSpec C04.LiftTP.
 Import ListNotations.
 Local Open Scope R_scope.
 
@@ -67,3 +72,72 @@ Theorem thermal_t1_ge_t2_fast_path_is_kraus_map : forall p0 p1 pz s0 s1 sz s3 (a
           (m2add (m2scale (- pz) (a, b, c, d)) (m2scale pz (conjugate pZ (a, b, c, d)))).
 Proof. exact thermal_ge_fast_path. Qed.
 Print Assumptions thermal_t1_ge_t2_fast_path_is_kraus_map.
+
+(* ==================================================================== Part 2: every n, every position *)
+Local Close Scope R_scope.
+
+(* (1) the trace is cyclic on 2^n x 2^n matrices *)
+Theorem trace_cyclic : forall n (A B : zmat), wf_mat n A -> wf_mat n B ->
+  ztr n (mmul Ziops A B) = ztr n (mmul Ziops B A).
+Proof. exact z_trace_cyclic. Qed.
+Print Assumptions trace_cyclic.
+
+(* the model apply_kraus is the generic map  w0 rho + sum_k w_k E_k rho E_k^dagger,  E_k = embed n qs_k K_k *)
+Theorem apply_kraus_is_generic_map : forall n w0 ts rho,
+  apply_kraus n w0 ts rho = gapply Ziops zi_conj n (zw w0) (map zlift ts) rho.
+Proof. exact apply_kraus_is_gapply. Qed.
+Print Assumptions apply_kraus_is_generic_map.
+
+(* (2) tr(apply_kraus rho) = tr((w0 I + sum_k w_k E_k^dagger E_k) rho) *)
+Theorem apply_kraus_trace : forall n w0 ts rho, wf_mat n rho ->
+  ztr n (apply_kraus n w0 ts rho) = ztr n (mmul Ziops (tp_op Ziops zi_conj n (zw w0) (map zlift ts)) rho).
+Proof. exact z_apply_kraus_trace. Qed.
+Print Assumptions apply_kraus_trace.
+
+(* (3) lifting: if the small operator w0 I + sum_k w_k K_k^dagger K_k is D times the 2^k x 2^k identity
+   (D = 1: trace preserving; D = the common denominator of integer weights), then for EVERY register
+   size n and EVERY duplicate-free in-range target list qs (any order) the trace is multiplied by D *)
+Theorem kraus_tp_lifts : forall n qs w0 ts D rho, NoDup qs -> (forall q, In q qs -> q < n) ->
+  Forall (fun t : kterm => snd (fst t) = qs /\ wf_mat (length qs) (snd t)) ts ->
+  tp_small Ziops zi_conj (length qs) (zw w0) (map zlift ts) = mscale Ziops (zw D) (eye Ziops (2 ^ length qs)) ->
+  wf_mat n rho ->
+  ztr n (apply_kraus n w0 ts rho) = zi_mul (zw D) (ztr n rho).
+Proof. exact z_kraus_tp_lifts. Qed.
+Print Assumptions kraus_tp_lifts.
+
+(* mixtures of unitaries whose terms may act on DIFFERENT qubit lists (PauliNoiseChannel,
+   UnitaryChannel, DepolarizingChannel as a Pauli mixture): the trace is multiplied by w0 + sum_k w_k *)
+Theorem unitary_mixture_trace : forall n w0 ts rho, Forall (z_unitary_term n) ts -> wf_mat n rho ->
+  ztr n (apply_kraus n w0 ts rho) = zi_mul (total_weight Ziops (zw w0) (map zlift ts)) (ztr n rho).
+Proof. exact z_unitary_mixture_trace. Qed.
+Print Assumptions unitary_mixture_trace.
+
+(* (4) complete positivity, without an order: rho = sum_i c_i v_i v_i^dagger is mapped to
+   sum (w0 c_i) v_i v_i^dagger + sum_{k,i} (w_k c_i) (E_k v_i)(E_k v_i)^dagger -- again a Gram form whose
+   coefficients are products weight x input coefficient; no hypothesis on n, the qubit lists or the operators,
+   so it holds verbatim with the operators embedded in any larger register (second statement) *)
+Theorem apply_kraus_preserves_gram_form : forall n w0 ts l,
+  apply_kraus n w0 ts (gram Ziops zi_conj n l)
+  = gram Ziops zi_conj n (gram_out Ziops n (zw w0) (map zlift ts) l).
+Proof. exact z_apply_kraus_gram. Qed.
+Print Assumptions apply_kraus_preserves_gram_form.
+
+Theorem apply_kraus_preserves_gram_form_on_extended_register : forall n m w0 ts l,
+  apply_kraus (n + m) w0 ts (gram Ziops zi_conj (n + m) l)
+  = gram Ziops zi_conj (n + m) (gram_out Ziops (n + m) (zw w0) (map zlift ts) l).
+Proof. exact z_apply_kraus_gram_extended. Qed.
+Print Assumptions apply_kraus_preserves_gram_form_on_extended_register.
+
+Theorem kraus_tp_lifts_on_extended_register : forall n m qs w0 ts D rho, NoDup qs -> (forall q, In q qs -> q < n) ->
+  Forall (fun t : kterm => snd (fst t) = qs /\ wf_mat (length qs) (snd t)) ts ->
+  tp_small Ziops zi_conj (length qs) (zw w0) (map zlift ts) = mscale Ziops (zw D) (eye Ziops (2 ^ length qs)) ->
+  wf_mat (n + m) rho ->
+  ztr (n + m) (apply_kraus (n + m) w0 ts rho) = zi_mul (zw D) (ztr (n + m) rho).
+Proof. exact z_kraus_tp_lifts_extended. Qed.
+Print Assumptions kraus_tp_lifts_on_extended_register.
+
+(* (5) Hermiticity is preserved (weights are real: integers) *)
+Theorem apply_kraus_preserves_hermiticity : forall n w0 ts rho, wf_mat n rho ->
+  hermitian Ziops zi_conj n rho -> hermitian Ziops zi_conj n (apply_kraus n w0 ts rho).
+Proof. exact z_apply_kraus_hermitian. Qed.
+Print Assumptions apply_kraus_preserves_hermiticity.
